@@ -1,6 +1,7 @@
 package checks
 
 import (
+	"strings"
 	"encoding/json"
 	"fmt"
 
@@ -217,7 +218,13 @@ func c20HangProbes() []c20input {
 		dag[fmt.Sprintf("D%d", n)] = gen.S{"type": "integer"}
 		dag["S"] = gen.S{"allOf": gen.Arr(gen.S{"$ref": "#/components/schemas/D0"}), "default": 1.0}
 		b, _ := json.Marshal(gen.S{"openapi": "3.0.3", "info": gen.S{"title": "t", "version": "1"}, "paths": gen.S{}, "components": gen.S{"schemas": dag}})
-		out = append(out, c20input{origin: fmt.Sprintf("chain of %s pairs, %d deep, with default", kw, n), data: b})
+		out = append(out, c20input{origin: fmt.Sprintf("probe:composition-dag-exponential chain of %s pairs, %d deep, with default", kw, n), data: b})
 	}
+	// a schema nested 9900 levels deep (below the decoder's own depth limit of 10000), 250 KB of text: the time to load it
+	// grows with the square of the depth
+	const depth = 9900
+	nested := strings.Repeat(`{"type":"array","items":`, depth) + `{"type":"string"}` + strings.Repeat("}", depth)
+	out = append(out, c20input{origin: fmt.Sprintf("probe:deep-nesting-quadratic-load items nested %d deep", depth),
+		data: []byte(`{"openapi":"3.0.3","info":{"title":"t","version":"1"},"paths":{},"components":{"schemas":{"A":` + nested + `}}}`)})
 	return out
 }
